@@ -252,7 +252,7 @@ func runC11Case(cfg Cfg, base []Op, healthy *vfs.FS, model *Model, uuids []strin
 		r.U16 = uint16(100 + e)
 		r.P = 100 + e
 		u := fmt.Sprintf("eeeeeeee-0000-4000-8000-00000000000%d", e)
-		fsys.Put(dir+"/"+u+ext, encodeObjectFile(r, cfg))
+		fsys.Put(dir+"/"+u+ext, encodeForeignObjectFile(r, cfg))
 		onDisk[u] = true
 	}
 	if cs.NoSchema {
@@ -387,4 +387,26 @@ func runC11Partial(cfg Cfg, base []Op, healthy *vfs.FS, uuid, where string) []Vi
 		fail("panic|"+firstLine(p.Value), "panic: "+p.Value+"\n"+trimStack(p.Stack))
 	}
 	return viol
+}
+
+// encodeForeignObjectFile renders r the way another tool could: indented, with
+// a key the struct does not know and a trailing newline. Still a well-formed
+// object file; Repair must index it and leave its bytes alone.
+func encodeForeignObjectFile(r *Rec, cfg Cfg) []byte {
+	plain, _ := json.Marshal(r)
+	var m map[string]interface{}
+	dec := json.NewDecoder(bytes.NewReader(plain))
+	dec.UseNumber()
+	dec.Decode(&m)
+	m["zz_written_by"] = "another tool"
+	data, _ := json.MarshalIndent(m, "", "\t")
+	data = append(data, '\n')
+	if !cfg.Compress {
+		return data
+	}
+	var buf bytes.Buffer
+	zw, _ := gzip.NewWriterLevel(&buf, gzip.BestCompression)
+	zw.Write(data)
+	zw.Close()
+	return buf.Bytes()
 }
